@@ -20,6 +20,8 @@ from antismash.common.secmet import Record
 from antismash.modules import tta
 
 from mc.engine.core import Result
+from antismash.common.hmm_rule_parser.structures import Multipliers
+
 from mc.props import c03
 from mc.universe import catalogue as K
 from mc.universe.config import DummyGenefinding
@@ -36,7 +38,7 @@ ASSUMPTIONS = [
     "under changed settings a regenerated object is accepted iff its saved form equals that of a fresh run under the new settings, or equals the "
     "original where the module documents the setting as ignorable (hmm detection strictness, with a warning)",
 ]
-BOUNDS = {"quick": "depth 3; rule detection on 22 records, sideloading 10, NRPS/PKS 8, HMMer 8, TTA 8", "thorough": "depth 4; all layouts x rulesets x topologies"}
+BOUNDS = {"quick": "depth 4 (state space closes earlier for most objects); rule detection incl. records with a pre-existing subregion, sideloading, NRPS/PKS, HMMer, TTA on the quick layouts", "thorough": "depth 6; all layouts x rulesets x topologies"}
 REQUIRED_BUCKETS = {t: ["regen:identical", "regen:refused-tampered", "regen:option-changed-accepted", "regen:option-changed-refused", "rules:hits-outside-protoclusters",
                         "effect:compared"] for t in ("quick", "thorough")}
 _REAL_RULE_NAMES = None
@@ -53,10 +55,14 @@ def make_options(overrides=None):
 
 
 def real_rule_names(options):
+    """the rule names the real hmm_detection ruleset has under these options (strictness, rule subset)"""
     global _REAL_RULE_NAMES
     if _REAL_RULE_NAMES is None:
-        _REAL_RULE_NAMES = sorted(hmm_detection.get_ruleset(options).get_rule_names())
-    return _REAL_RULE_NAMES
+        _REAL_RULE_NAMES = {}
+    key = (options.hmmdetection_strictness, tuple(sorted(options.hmmdetection_limit_to_rules)))
+    if key not in _REAL_RULE_NAMES:
+        _REAL_RULE_NAMES[key] = sorted(hmm_detection.get_ruleset(options).get_rule_names())
+    return _REAL_RULE_NAMES[key]
 
 
 def fresh_record(spec):
@@ -107,8 +113,13 @@ class Family:
         return False
 
 
-def _detect(rec, rules):
-    ruleset = c03.make_ruleset(K.RULESETS[rules], K.HITS[rules])
+def _detect(rec, rules, multipliers=None):
+    spec = K.RULESETS[rules]
+    if multipliers is not None:
+        # what rule parsing does with the multipliers of the taxon
+        spec = [(name, int(cutoff * multipliers.cutoff), int(neigh * multipliers.neighbourhood), tree, sup, ext)
+                for name, cutoff, neigh, tree, sup, ext in spec]
+    ruleset = c03.make_ruleset(spec, K.HITS[rules], multipliers)
     results = cluster_prediction.detect_protoclusters_and_signatures(rec, ruleset)
     results.annotate_cds_features()
     return results
@@ -116,7 +127,9 @@ def _detect(rec, rules):
 
 class RulesFamily(Family):
     name = "rules"
-    options_menu = {"hmmdetection_strictness": ["relaxed", "strict", "loose"]}
+    # every setting hmm_detection documents as deciding whether saved results may be reused
+    options_menu = {"hmmdetection_strictness": ["relaxed", "strict", "loose"], "taxon": ["bacteria", "fungi"],
+                    "hmmdetection_fungal_neighbourhood_multiplier": [1.5, 1.0], "hmmdetection_limit_to_rules": [(), ("T1PKS",)]}
 
     def prepare(self, options):
         rec = fresh_record(self.spec)
@@ -130,10 +143,12 @@ class RulesFamily(Family):
 
     def produce(self, options):
         rec = self.prepare(options)
-        rule_results = _detect(rec, self.spec["rules"])
+        multipliers = Multipliers()
+        if options.taxon == "fungi":
+            multipliers = Multipliers(options.hmmdetection_fungal_cutoff_multiplier, options.hmmdetection_fungal_neighbourhood_multiplier)
+        rule_results = _detect(rec, self.spec["rules"], multipliers)
         self.outside_hits = len(rule_results.cdses_outside_clusters)
-        results = hmm_detection.HMMDetectionResults(rec.id, rule_results, list(real_rule_names(make_options())), "relaxed")
-        make_options(dict(zip(self.options_menu, [v[0] for v in self.options_menu.values()])))
+        results = hmm_detection.HMMDetectionResults(rec.id, rule_results, list(real_rule_names(options)), options.hmmdetection_strictness)
         add_areas(rec, results)
         return results, finish(rec)
 
@@ -400,7 +415,8 @@ def explore_object(fam_name, spec, depth, res):
                 else:
                     fresh_text, fresh_effect = fresh_under(vector)
                     acceptable = {fresh_text}
-                    if new_text == text and fam_name == "rules":
+                    differing = {name for name, a, b in zip(option_names, vector, saved_under) if a != b}
+                    if new_text == text and fam_name == "rules" and differing <= {"hmmdetection_strictness"}:
                         # hmm detection documents the strictness option as ignored (with a warning) when reusing results
                         res.buckets["regen:option-changed-accepted"] += 1
                     elif new_text not in acceptable:
@@ -442,7 +458,7 @@ def K_diff(a, b):
 
 
 def shards(tier):
-    depth = 3 if tier == "quick" else 4
+    depth = 4 if tier == "quick" else 6
     return [[fam, spec, depth] for fam, spec in objects(tier)]
 
 
